@@ -112,6 +112,8 @@ pub struct CertRow {
     pub parent: Option<String>,
     pub epoch: u64,
     pub ent: Option<usize>,
+    /// party ids of `metadata.signers`
+    pub signers: Vec<String>,
 }
 
 #[derive(Clone, Debug)]
@@ -405,10 +407,10 @@ impl World {
             self.msg_of_ent.insert(ent, pm);
             d.oms.push(OmRow { ent, epoch: ep as u64, certified: cert != 0, expired: exp != 0, id, msg });
         }
-        let mut raw_certs: Vec<(String, Option<String>, i64, i64, String)> = vec![];
+        let mut raw_certs: Vec<(String, Option<String>, i64, i64, String, String)> = vec![];
         {
             let mut st = c
-                .prepare("select certificate_id, parent_certificate_id, epoch, signed_entity_type_id, cast(signed_entity_beacon as text) from certificate order by rowid")
+                .prepare("select certificate_id, parent_certificate_id, epoch, signed_entity_type_id, cast(signed_entity_beacon as text), cast(signers as text) from certificate order by rowid")
                 .unwrap();
             while let Ok(sqlite::State::Row) = st.next() {
                 raw_certs.push((
@@ -417,12 +419,20 @@ impl World {
                     st.read::<i64, _>(2).unwrap(),
                     st.read::<i64, _>(3).unwrap(),
                     st.read::<String, _>(4).unwrap(),
+                    st.read::<String, _>(5).unwrap(),
                 ));
             }
         }
-        for (hash, parent, ep, ty, beacon) in raw_certs {
+        for (hash, parent, ep, ty, beacon, signers) in raw_certs {
             let ent = if parent.is_none() { None } else { Some(self.entity_of_row(ty, &beacon)) };
-            d.certs.push(CertRow { hash, parent, epoch: ep as u64, ent });
+            let signers: Vec<String> = serde_json::from_str::<serde_json::Value>(&signers)
+                .ok()
+                .and_then(|v| v.as_array().cloned())
+                .unwrap_or_default()
+                .iter()
+                .filter_map(|x| x.get("party_id").and_then(|p| p.as_str()).map(|p| p.to_string()))
+                .collect();
+            d.certs.push(CertRow { hash, parent, epoch: ep as u64, ent, signers });
         }
         {
             let mut st = c
@@ -490,21 +500,32 @@ impl World {
             .certs
             .iter()
             .map(|c| {
+                // the signer list of a certificate (genesis: none), as sorted party ordinals
+                let mut sg: Vec<usize> = if c.ent.is_some() { c.signers.iter().map(|p| self.party_ord(p)).collect() } else { vec![] };
+                sg.sort();
                 format!(
-                    "({},{},{})",
+                    "({},{},{},{})",
                     c.ent.map(|e| e.to_string()).unwrap_or("g".into()),
                     c.epoch,
-                    c.parent.as_ref().map(|p| cert_ord.get(p.as_str()).map(|i| i.to_string()).unwrap_or("x".into())).unwrap_or("n".into())
+                    c.parent.as_ref().map(|p| cert_ord.get(p.as_str()).map(|i| i.to_string()).unwrap_or("x".into())).unwrap_or("n".into()),
+                    hutil::list(&sg)
                 )
             })
             .collect();
-        let mut sigs: Vec<(usize, usize)> = d
+        // single_signature rows: (entity, label, identity of the stored signature value)
+        let mut sigs: Vec<(usize, usize, usize)> = d
             .sigs
             .iter()
-            .map(|s| (om_ent.get(s.om.as_str()).copied().unwrap_or(9999), self.party_ord(&s.party)))
+            .map(|s| {
+                (
+                    om_ent.get(s.om.as_str()).copied().unwrap_or(9999),
+                    self.party_ord(&s.party),
+                    self.sigmas.iter().position(|x| *x == s.signature).unwrap_or(99999),
+                )
+            })
             .collect();
         sigs.sort();
-        let sigs: Vec<String> = sigs.iter().map(|(e, p)| format!("({},{})", e, p)).collect();
+        let sigs: Vec<String> = sigs.iter().map(|(e, p, g)| format!("({},{},{})", e, p, g)).collect();
         let mut buf: Vec<(u64, usize)> = d.buffered.iter().map(|(t, p, _)| (*t, self.party_ord(p))).collect();
         buf.sort();
         let buf: Vec<String> = buf.iter().map(|(t, p)| format!("({},{})", t, p)).collect();
